@@ -1,7 +1,7 @@
 (* C19 - Instrument names, views and scope rules select exactly what they describe.
    Every theorem is about the executable model coq/C19/Model.v (tied to the C++ by the differential run of ./check C19);
    constants (regex literals, the no-op logger's name) come from Gen/Consts.v, regenerated from /repo on every run. *)
-From V Require Import C19.Glue C19.ProofsBase C19.ProofsNames C19.ProofsViews C19.ProofsScopes C19.ProofsLoggers C19.ProofsMeters C19.ProofsMeets.
+From V Require Import C19.Glue C19.ProofsBase C19.ProofsNames C19.ProofsViews C19.ProofsScopes C19.ProofsLoggers C19.ProofsMeters C19.ProofsMeets C19.ProofsWire.
 Local Open Scope N_scope.
 
 (* ---- "an instrument is created for exactly the names of the form letter followed by up to 254 letters, digits, _ . - /" -
@@ -24,6 +24,17 @@ Theorem unit_valid_iff : forall s,
   validate_unit s = true <-> (length s <= 63)%nat /\ Forall (fun b => 1 <= b2n b <= 127) s.
 Proof. exact unit_valid_iff_lemma. Qed.
 Print Assumptions unit_valid_iff.
+
+(* ---- the hand-written validator variant (the #else branches of the same file, for compilers without a working std::regex)
+   decides the same sets - except that it accepts a unit with an embedded NUL and reads name[0] of an empty name *)
+Theorem handwritten_validators_agree : forall s,
+  (s <> [] -> validate_name_nr s = Some (validate_name s)) /\ (has_nul s = false -> validate_unit_nr s = validate_unit s).
+Proof. exact variants_agree_lemma. Qed.
+Print Assumptions handwritten_validators_agree.
+
+Theorem handwritten_validators_agree_refuted : validate_unit [x6d; x00] = false /\ validate_unit_nr [x6d; x00] = true.
+Proof. exact variants_differ_on_nul. Qed.
+Print Assumptions handwritten_validators_agree_refuted.
 
 (* ---- "for any other name or unit the meter returns an inert instrument and no metric stream ever appears for it":
    in every provider configuration and every history, creating it is indistinguishable from not creating it *)
@@ -180,8 +191,14 @@ Proof. exact equal_to_equiv. Qed.
 Print Assumptions equal_to_decides_same_attributes.
 
 (* ---- the SPEC checker that ./check runs on the implementation's observations accepts the model's output:
-   for every name, unit, predicate, tracer case; for metrics cases under [met_good] (the excluded regions are exactly the
+   for every name, predicate, tracer case; for units without an embedded NUL (else the variants differ); for metrics cases under [met_good] (the excluded regions are exactly the
    open findings F14, F22, F23 and re-created instruments, C06); for logger cases under [good_req] (F19, F21) *)
 Theorem model_meets_spec : forall c, case_good c -> spec_on c = [].
 Proof. exact model_meets_spec_lemma. Qed.
 Print Assumptions model_meets_spec.
+
+(* the same, for the two extracted entry points as ./check composes them: the observation [run_model] prints parses back,
+   and [run_spec] finds no failed clause in it *)
+Theorem model_meets_spec_wire : forall l c, parse_case l = Some c -> case_good c -> run_spec l (run_model l) = [].
+Proof. exact model_meets_spec_wire_lemma. Qed.
+Print Assumptions model_meets_spec_wire.
